@@ -292,6 +292,19 @@ func (w *c17World) attempt(rep Rep, faultAt, kind int, desc string) (done bool, 
 			case FCrashAfter:
 				f = &sim.Fault{Crash: true, Apply: true}
 			case FConflict:
+				if a.Verb == "delete" && a.Resource == "statefulsets" && a.GVR.Group == "apps" {
+					// the still-running built-in controller writes the set's status just before the delete: a delete that
+					// carries a resourceVersion precondition then meets a conflict (one without does not care)
+					for _, b := range c.BuiltinSets() {
+						if b.Namespace == a.Namespace && b.Name == a.Name {
+							if b.Annotations == nil {
+								b.Annotations = map[string]string{}
+							}
+							b.Annotations["touched"] = "by-the-still-running-built-in-controller"
+							c.Put(b)
+						}
+					}
+				}
 				if a.Verb == "update" && a.Name != "" {
 					switch a.Resource {
 					case "controllerrevisions":
